@@ -7,6 +7,8 @@ package sctp
 
 import (
 	"fmt"
+	"os"
+	"strings"
 	"testing"
 	"time"
 )
@@ -23,7 +25,7 @@ func init() {
 		for _, buf := range []uint32{3000, 4096, 6000} {
 			for _, il := range []bool{false, true} {
 				for _, probeSid := range []int{1, 2} {
-					for _, msgLen := range []int{700, 1000, -700} {
+					for _, msgLen := range []int{700, 1000, -700, 100700} {
 						// msgLen < 0: the receiving application has closed ITS direction of stream 1 (Stream.Close resets
 						// the outgoing side only): the stream stays registered and readable, the peer keeps sending on it,
 						// and what is held there counts against the window like anything else
@@ -31,11 +33,20 @@ func init() {
 						if halfClosed {
 							msgLen = -msgLen
 						}
+						// msgLen > 100000: the data sent into the closed window is partially reliable (two retransmissions):
+						// window probes count as transmissions, the message is given up and skipped
+						prProbe := msgLen > 100000
+						if prProbe {
+							msgLen -= 100000
+						}
 						k++
 						if k%nshards != shard {
 							continue
 						}
-						label := fmt.Sprintf("zwdir-b%d-il%v-p%d-m%d-h%v#%d", buf, il, probeSid, msgLen, halfClosed, k)
+						label := fmt.Sprintf("zwdir-b%d-il%v-p%d-m%d-h%v-pr%v#%d", buf, il, probeSid, msgLen, halfClosed, prProbe, k)
+						if only := os.Getenv("VF_ONLY"); only != "" && !strings.Contains(label, only) {
+							continue
+						}
 						vfBubble(t, label, func() {
 							w := vfNewWorld(vfWorldOpt{Label: label, Trace: tr, A: vfEpCfg{InitTSN: uint32(k * 1000), Tag: 0xAE, IL: il}, B: vfEpCfg{InitTSN: 5, Tag: 0xBE, IL: il, Server: true, Buf: buf}})
 							if !w.vfConnect() {
@@ -72,6 +83,9 @@ func init() {
 								w.pump(8)
 							}
 							// more data: for the other stream (nothing readable there) or for the same one
+							if prProbe {
+								w.setRel(0, probeSid, true, ReliabilityTypeRexmit, 2)
+							}
 							w.write(0, probeSid, 400, 51)
 							w.write(0, 3-probeSid, 300, 51)
 							for i := 0; i < 8; i++ {
